@@ -811,6 +811,11 @@ func vc20OutsideWorld(step, errText string) (ok bool) {
 		return strings.Contains(errText, "initial refresh: ")
 	case step == "filter-storage":
 		return strings.HasPrefix(errText, "refreshing default filter storage: ")
+	case step == "ratelimit-init":
+		// The allowlist source of the environment is down or failing.
+		return strings.HasPrefix(errText, "allowlist: initial refresh: ")
+	case step == "allowlist-later-refresh":
+		return true
 	}
 
 	return false
@@ -976,6 +981,13 @@ func (ck *vc20Checker) vc20EvalClasses(t vc20T, muts []vc20Mutation, pair bool, 
 	}
 
 	classes = append(classes, ck.fx.vc20DisabledSectionClasses(applied)...)
+	for _, e := range extra {
+		// What the backend does is part of the identity of a case.
+		if strings.HasPrefix(e, "backend:") {
+			keyParts = append(keyParts, e)
+		}
+	}
+
 	sort.Strings(keyParts)
 	ntKey := strings.Join(keyParts, ";")
 	if pair {
@@ -1689,7 +1701,7 @@ func TestVerifC20ValidPairs(t *testing.T) {
 	st := vstat.New("C20", "cmd.validpairs", "bounded-exhaustive: every valid alternative (flag the other way, other documented enum value, other form of a section) alone and every pair of alternatives of different sections; full start-up incl. real listeners for every accepted file; "+vc20Rule,
 		"accepted", "exercise-full", "valid-pair-started-and-queried", "client-ipv4-mapped", "ddr-query-served",
 		"pair:connection_limit.enabled=false×bind_interfaces", "pair:connection_limit.enabled=false×bind_addresses",
-		"pair:connection_limit.enabled=true×bind_interfaces",
+		"pair:connection_limit.enabled=true×bind_interfaces", "allowlist-backend-only-with-failing-backend",
 		"btd-real-answered-udp", "btd-real-answered-tcp", "dns-real-answered", "dot-real-answered", "doh-real-answered", "doq-real-answered", "dnscrypt-real-answered")
 	st.SetExhaustive()
 	st.Finish(t)
@@ -1732,6 +1744,70 @@ func TestVerifC20ValidPairs(t *testing.T) {
 
 	st.Extra("goroutines_at_end", runtime.NumGoroutine())
 	st.Extra("queries_that_reached_the_loopback_upstream", ck.fx.upsCount.Load())
+	col.report()
+}
+
+// TestVerifC20BackendUsage enumerates who uses the protobuf backend (the
+// allowlist: backend or consul; profiles: enabled in the server group or not;
+// the DNS-check storage: backend or cache) against what the rate-limit backend
+// does: answers, refuses connections, answers every call with a gRPC error,
+// answers at start-up and fails on a later refresh.
+func TestVerifC20BackendUsage(t *testing.T) {
+	st := vstat.New("C20", "cmd.backendusage", "bounded-exhaustive: {allowlist.type backend|consul} x {profiles_enabled true|false} x {check.kv.type backend|cache} x {backend answers | refuses connections | returns a gRPC error | fails on a later refresh}; builder.initGRPCMetrics and builder.initRateLimiter are the package's own; "+vc20Rule,
+		"accepted", "exercise-full", "allowlist-backend-only-with-failing-backend", "allowlist-backend-answers", "allowlist-backend-fails-later",
+		"backend:answers", "backend:refuses", "backend:grpc-error", "backend:fails-later")
+	st.SetExhaustive()
+	st.Finish(t)
+
+	ck := vc20NewChecker(t, st)
+	ck.fx.forceFull = true
+	col := &vc20Collector{t: t}
+	fx := ck.fx
+	be := vc20StartRateLimitBackend(t)
+	fx.rlBackend = be
+	find := func(name string) (f *vc20Field) {
+		for _, f = range fx.fields {
+			if f.name == name {
+				return f
+			}
+		}
+
+		t.Fatalf("fixture: no field %s in the catalogue", name)
+
+		return nil
+	}
+
+	allowType, profiles, kvType := find("ratelimit.allowlist.type"), find("server_groups.0.profiles_enabled"), find("check.kv.type")
+	for _, behaviour := range []string{"answers", "refuses", "grpc-error", "fails-later"} {
+		for _, at := range []string{"backend", "consul"} {
+			for _, prof := range []bool{true, false} {
+				for _, kv := range []string{"backend", "cache"} {
+					be.refuse = behaviour == "refuses"
+					be.laterFail = behaviour == "fails-later"
+					be.fail.Store(behaviour == "grpc-error")
+
+					var muts []vc20Mutation
+					if at != allowType.orig {
+						muts = append(muts, vc20Mutation{field: allowType, val: vc20Value{class: "other-enum", v: at}})
+					}
+
+					if prof != profiles.orig {
+						muts = append(muts, vc20Mutation{field: profiles, val: vc20Value{class: "flip", v: prof}})
+					}
+
+					if kv != kvType.orig {
+						muts = append(muts, vc20Mutation{field: kvType, val: vc20Value{class: "other-enum", v: kv}})
+					}
+
+					col.run(func() { ck.vc20EvalClasses(col, muts, false, []string{"backend:" + behaviour}) })
+				}
+			}
+		}
+	}
+
+	be.refuse, be.laterFail = false, false
+	be.fail.Store(false)
+	st.Extra("rate_limit_backend_calls", be.calls.Load())
 	col.report()
 }
 
